@@ -7,6 +7,7 @@ package main
 // can only be the breaker's rejection and a 429 its half-open limit.
 
 import (
+	"strings"
 	"fmt"
 	"time"
 
@@ -274,6 +275,38 @@ func runLBCB(x *X) {
 		}
 	}
 	x.Sample["steps"] = steps
+
+	// ---- a second balancer: "no healthy backend" is Helios' own answer, not a failed proxied request ----
+	// One backend, passive health checks with threshold 1: a single failed response ejects it, and
+	// for the length of the window Helios answers 503 itself without contacting anybody. Those
+	// answers are not failures of a proxied request: they must not trip the breaker.
+	if !x.dead && x.Want("C07") && cb.FailureThreshold >= 2 && c.Intn(3, "no-healthy-backend-phase") == 0 {
+		net2 := newStubNet(x)
+		net2.add("solo", x.BackendHost(7, 8), "")
+		var h2 *lbHarness
+		x.Do("setup2", func() {
+			h2, _ = newLBHarness(x, net2, lbOpts{strategy: strategy, backends: []config.BackendConfig{{Name: "solo", Address: "http://" + x.BackendHost(7, 8), Weight: 1}},
+				breaker: &cb, passive: true, threshold: 1, window: 1})
+		}, onErr)
+		if h2 != nil {
+			var r simResult
+			x.Do("req", func() { r = h2.do(reqSpec{client: "192.0.2.9", plan: &reqPlan{mode: "s500"}}) }, onErr)
+			rejected := 0
+			for k := 0; k < cb.FailureThreshold+1 && !x.dead; k++ {
+				x.Do("req", func() { r = h2.do(reqSpec{client: "192.0.2.9"}) }, onErr)
+				if r.status == 503 && strings.Contains(r.body, "No healthy backend") {
+					rejected++
+				}
+			}
+			x.Advance(1100*time.Millisecond, onErr)
+			x.Do("req", func() { r = h2.do(reqSpec{client: "192.0.2.9"}) }, onErr)
+			if !x.dead && rejected > 0 && r.status != 200 && interval > 1100*time.Millisecond {
+				x.Violate("C07", "C07/opened-by-no-healthy-backend-answers", "one failed proxied request (failure_threshold %d) followed by %d answers 'no healthy backend' while the only backend was ejected: once the ejection was over the request got %d %q instead of reaching the backend", cb.FailureThreshold, rejected, r.status, strings.TrimSpace(r.body))
+			}
+			x.Probe("no-healthy-backend-is-not-a-breaker-failure")
+			x.Do("stop2", func() { h2.lb.Stop() }, onErr)
+		}
+	}
 
 	// ---- biased tail: clients that walk away ---------------------------------
 	// A slow request admitted while the breaker is closed is still waiting for its backend when
